@@ -516,7 +516,7 @@ end
 /-- the tree of an expression text; `none` = not an expression -/
 def parseText (s : List Char) : Option Expr :=
   let toks := lex (s.length + 1) s
-  match pAssign (40 * (toks.length + 2)) toks with
+  match pAssign (64 * (toks.length + 2)) toks with
   | some (e, []) => some e
   | _ => none
 
